@@ -190,6 +190,21 @@ def method_aliasing():
     c1.transpose("5")
     if [str(tn.get_Note(i, 0)) for i in range(3)] != before: bad.append("StringTuning.get_Note(open string) hands out the tuning's own note")
     if [str(n) for n in c2] != [str(n) for n in tn.frets_to_NoteContainer([0, 0, 2])]: bad.append("frets_to_NoteContainer: two results share notes")
+    # the channel list handed to play_Composition (too short, exactly right) and the meter handed to a bar as a LIST
+    for chans in ([9], [3, 4], [1, 2, 3]):
+        seq = sequencer.Sequencer(); comp = Composition()
+        for _ in range(3):
+            tr = Track(); tr.add_notes("C", 4); comp.add_track(tr)
+        keep = list(chans)
+        try:
+            seq.play_Composition(comp, chans, 6000)
+        except Exception:
+            pass
+        if chans != keep: bad.append("Sequencer.play_Composition(channels=%s) changed the caller's list to %s" % (keep, chans))
+    m = [3, 4]; bm = Bar("C", m); m[0] = 7; m.append(1)
+    if tuple(bm.meter) != (3, 4) or bm.length != 0.75: bad.append("Bar(key, meter list): the bar follows later changes of the caller's list")
+    m2 = [6, 8]; b2 = Bar(); b2.set_meter(m2); m2[1] = 4
+    if tuple(b2.meter) != (6, 8): bad.append("Bar.set_meter(list): the bar follows later changes of the caller's list")
     # dictionaries handed to a call
     for kw in ({}, {"velocity": 90}, {"channel": 5}, {"velocity": 1, "channel": 2}):
         d = {"velocity": 70, "channel": 3}; d0 = dict(d)
